@@ -149,3 +149,29 @@ func VC_C19_nil_values() {
 type vC19Err struct{}
 
 func (*vC19Err) Error() string { return "typed nil" }
+
+func vC19Pure(a int, rest ...int) int { return a*2 + len(rest) }
+
+// VC_C19_overlapping_calls: two goroutines call the same callback mock at once under an
+// arbitrary logging configuration: each caller gets the result of its own call (the
+// logging wrapper keeps nothing between calls), with every interleaving at the
+// synchronisation points of the logging path explored and unsynchronised sharing
+// reported as a race.
+func VC_C19_overlapping_calls() {
+	vEnv()
+	vPristine(vC19F)
+	logger.ConsoleLevel, logger.LogLevel = verifInt("console2"), verifInt("level2")
+	b := Create()
+	b.Func(vC19F).Apply(vC19Pure)
+	f := vInvoke(vC19F, "C19.overlap").(func(int, ...int) int)
+	a1, a2 := verifInt("a1"), verifInt("a2")
+	var r1, r2 int
+	verifSpawn(func() { r1 = f(a1) })
+	verifSpawn(func() { r2 = f(a2, 1) })
+	verifJoin()
+	verifAssert(r1 == a1*2, "C19.overlap.first-caller-gets-own-result")
+	verifAssert(r2 == a2*2+1, "C19.overlap.second-caller-gets-own-result")
+	b.Reset()
+	verifAssert(!vDiverted(vC19F), "C19.overlap.reset-restores")
+	verifReached("C19.overlap")
+}
